@@ -86,6 +86,14 @@ func sameMultiset(a, b map[string]int) bool {
 	return true
 }
 
+// bareMedia is the media type without parameters, lower-cased (what the registries are keyed by).
+func bareMedia(m string) string {
+	if mt, _, err := mime.ParseMediaType(m); err == nil {
+		return mt
+	}
+	return strings.ToLower(strings.TrimSpace(m))
+}
+
 func isURLEncoded(media string) bool { return strings.ToLower(media) == runtime.URLencodedFormMime }
 
 // refTable caches the reference encodings of the value payloads.
@@ -138,13 +146,16 @@ func judge(c Case, o observed) (v verdict) {
 	}
 	// which body does the text demand for this payload kind?
 	hasFiles := len(c.Files) > 0
-	multipartDoc := c.Payload == "form" && (hasFiles || c.Media == runtime.MultipartFormMime)
+	// the chosen media type as RFC 7231 compares it: bare type, case-insensitive, parameters and
+	// optional whitespace aside ("application/json; charset=utf-8", "Application/JSON", "a/b;\tc=d")
+	media := bareMedia(c.Media)
+	multipartDoc := c.Payload == "form" && (hasFiles || media == runtime.MultipartFormMime)
 
 	var want []byte
 	switch c.Payload {
 	case "value":
 		var defined bool
-		want, defined = reference(c.Media, c.Value)
+		want, defined = reference(media, c.Value)
 		if !defined {
 			// MAY: the registered producer itself does not encode this value (error or panic outside
 			// the client); the text says nothing about what is sent then. Codec behaviour is C15.
@@ -233,13 +244,13 @@ func judge(c Case, o observed) (v verdict) {
 		return v
 
 	case c.Payload == "value":
-		if len(o.producers) != 1 || o.producers[0] != c.Media {
+		if len(o.producers) != 1 || o.producers[0] != media {
 			return v.fail("producer-selection", "producers called: %v, expected exactly the one registered for %q", o.producers, c.Media)
 		}
 		if !bytes.Equal(sent, want) {
 			return v.fail("body-mismatch/value", "sent %s, the %q producer encodes the value as %s", short(sent), c.Media, short(want))
 		}
-		if ctErr != nil || mt != strings.ToLower(c.Media) {
+		if ctErr != nil || mt != media {
 			return v.fail("content-type-header/value", "Content-Type %q does not announce the chosen media type %q", o.ct, c.Media)
 		}
 		v.nontrivial = true
@@ -253,7 +264,7 @@ func judge(c Case, o observed) (v verdict) {
 		if len(o.producers) != 0 {
 			return v.fail("producer-selection", "a reader payload went through producers %v", o.producers)
 		}
-		if ctErr != nil || mt != strings.ToLower(c.Media) {
+		if ctErr != nil || mt != media {
 			return v.fail("content-type-header/reader", "Content-Type %q does not announce the chosen media type %q", o.ct, c.Media)
 		}
 		v.nontrivial = true
@@ -295,7 +306,7 @@ func judge(c Case, o observed) (v verdict) {
 		}
 		v.nontrivial = true
 		if ctErr != nil || mt != runtime.URLencodedFormMime {
-			if !isURLEncoded(c.Media) && ctErr == nil && mt == strings.ToLower(c.Media) {
+			if !isURLEncoded(media) && ctErr == nil && mt == media {
 				v.outcomes = append(v.outcomes, "sent:urlencoded-form-labelled-"+c.Media)
 				return v.fail("content-type-header/form-fields-under-non-form-media-type",
 					"form fields were sent URL-encoded (%s) but announced as Content-Type %q", short(sent), o.ct)
@@ -317,7 +328,7 @@ func judge(c Case, o observed) (v verdict) {
 	if mt != runtime.MultipartFormMime {
 		// MAY: with the URL-encoded media type chosen the library (and its own tests) announce
 		// "application/x-www-form-urlencoded; boundary=..." for a multipart document
-		if !(isURLEncoded(c.Media) && mt == runtime.URLencodedFormMime) {
+		if !(isURLEncoded(media) && mt == runtime.URLencodedFormMime) {
 			return v.fail("content-type-header/multipart", "a multipart document was sent under Content-Type %q", o.ct)
 		}
 	}
